@@ -90,6 +90,43 @@ func newCW(f *failer, kv, mm bool, nwriters int) *CW {
 	return c
 }
 
+// restoreInto replaces the (still empty) instance's content by a backup of a sequentially
+// built instance holding the given items: the rounds then run on a restored instance.
+func (c *CW) restoreInto(items [][]byte, dir string, nwriters int) {
+	cfg := nitro.DefaultConfig()
+	if c.kv {
+		cfg.SetKeyComparator(nitro.CompareKV)
+	}
+	src := nitro.NewWithConfig(cfg)
+	w := src.NewWriter()
+	for _, it := range items {
+		w.Put(it)
+	}
+	snap, _ := src.NewSnapshot()
+	if err := src.StoreToDisk(dir, snap, 2, nil); err != nil {
+		c.f.failf("setup", "StoreToDisk: %v", err)
+	}
+	src.Close()
+	// the target instance must be fresh: no writers yet
+	rs, err := c.db.LoadFromDisk(dir, 2, nil)
+	if err != nil {
+		c.f.failf("load-error-after-successful-store", "LoadFromDisk: %v", err)
+	}
+	for i := 0; i < nwriters; i++ {
+		c.ws = append(c.ws, c.db.NewWriter())
+	}
+	sn, _ := nitro.VerifSnapshotSn(rs)
+	si := &snapInfo{snap: rs, sn: sn, refs: 1}
+	c.snaps = append(c.snaps, si)
+	si.content = c.scan(rs)
+	for _, it := range si.content {
+		c.state[c.keyOf([]byte(it))] = it
+	}
+	if len(si.content) != len(items) {
+		c.f.failf("restore-content", "restored %d items, stored %d", len(si.content), len(items))
+	}
+}
+
 func (c *CW) keyOf(item []byte) string {
 	if c.kv {
 		k, _ := nitro.KVFromBytes(item)
